@@ -1,6 +1,7 @@
 package props
 
 import (
+	"io"
 	"math"
 	"bytes"
 	"context"
@@ -513,9 +514,22 @@ func (cacheEngine) Exec(t *testing.T, cc any) *simrt.Result {
 // cacheOf finds the EventCache behind a CacheHandler by reflection, so that the
 // checks do not depend on the handler's unexported field names.
 func cacheOf(h mocrelay.CacheHandler) *mocrelay.EventCache {
-	v := simrt.FindPointer(h, reflect.TypeOf((*mocrelay.EventCache)(nil)))
-	if !v.IsValid() {
+	c := cacheOfOrNil(h)
+	if c == nil {
+		// a handler that builds its store on first use: use it once
+		h.Dump(io.Discard)
+		c = cacheOfOrNil(h)
+	}
+	if c == nil {
 		panic("verif: no *EventCache reachable from CacheHandler")
+	}
+	return c
+}
+
+func cacheOfOrNil(h mocrelay.CacheHandler) *mocrelay.EventCache {
+	v := simrt.FindPointer(h, reflect.TypeOf((*mocrelay.EventCache)(nil)))
+	if !v.IsValid() || v.IsNil() {
+		return nil
 	}
 	return v.Interface().(*mocrelay.EventCache)
 }
